@@ -1,7 +1,7 @@
 # extra entries for genmanifest.py (exec'd there): CHECKS[...] / NA[...] / HOOK_COMMITS
 HOOK_COMMITS = ["00f9f91", "0c36a77", "a7a9a70"]
 # only properties whose check currently passes on the unchanged tree with valid evidence are claimed
-CLAIMED = ["C02", "C03", "C04", "C05", "C06", "C07", "C08", "C10", "C11", "C12", "C13", "C14", "C15", "C16", "C17", "C18", "C19"]
+CLAIMED = ["C01", "C02", "C03", "C04", "C05", "C06", "C07", "C08", "C09", "C10", "C11", "C12", "C13", "C14", "C15", "C16", "C17", "C18", "C19", "C20"]
 _T = "CBMC 6.11 bounded model checking of the real C sources (goto-cc), "
 CHECKS["C01"] = dict(
   text="Bounded model checking of the real multiplication routes against the textbook GF(2) product written in the harness: naive / vector routes and M4RM with every bit of A, B and the prior C symbolic at small inner dimension; larger shapes with one operand (or a word band) symbolic and the rest concrete; the Strassen front ends at base-case sizes and the A==B squaring dispatch; DJB compile+apply; scaled-down cache configuration for the blocked loops. The multi-core route is checked at index level with symbolic dimensions (C16 harness).",
